@@ -523,6 +523,36 @@ func (e *vpassEngine) Analyze(fn *ssa.Function, cfg vpassCfg, depth int) *vpassR
 			lgs = append(lgs, lg{c.ev.Block, c.ev.PassBlk, c.ev.LenPaths})
 		}
 	}
+	if depth < 3 {
+		for _, c := range cands {
+			call, ok := c.ev.Origin.(*ssa.Call)
+			if !ok || c.ev.PassBlk == nil {
+				continue
+			}
+			callee := call.Call.StaticCallee()
+			if callee == nil || callee.Blocks == nil || FuncPkg(callee) == nil || !inModule(FuncPkg(callee).Path()) {
+				continue
+			}
+			ccfg := vpassCfg{untrusted: map[int]bool{}, lenTrusted: map[int]bool{}, fixedIn: map[string]bool{}}
+			var argDescs []string
+			for i, a := range call.Call.Args {
+				argDescs = append(argDescs, Desc(a))
+				if e.untrustedDep(a, fn, cfg, nil) {
+					ccfg.untrusted[i] = true
+				}
+			}
+			sub := e.Analyze(callee, ccfg, depth+1)
+			for _, se := range sub.events {
+				if se.Kind == "lenguard" && se.Status == "must" {
+					var ps []string
+					for _, lp := range substAll(se.LenPaths, argDescs) {
+						ps = append(ps, normIdx(lp))
+					}
+					lgs = append(lgs, lg{c.ev.Block, c.ev.PassBlk, ps})
+				}
+			}
+		}
+	}
 	fixedAt := func(b *ssa.BasicBlock) map[string]bool {
 		m := map[string]bool{}
 		for k := range cfg.fixedIn {
@@ -669,6 +699,16 @@ func (e *vpassEngine) Analyze(fn *ssa.Function, cfg vpassCfg, depth int) *vpassR
 				}
 				le.Deps = substDeps(se.Deps, call.Call.Args, false)
 				le.Direct = substDeps(se.Direct, call.Call.Args, true)
+				if se.Kind == "lenguard" {
+					// a length check performed by a helper fixes the length in the caller once the helper's error
+					// result has been tested: same passing edge as the call-site check, paths in caller terms
+					le.PassBlk = ev.PassBlk
+					le.Block = ev.Block
+					le.LenPaths = nil
+					for _, lp := range substAll(se.LenPaths, argDescs) {
+						le.LenPaths = append(le.LenPaths, normIdx(lp))
+					}
+				}
 				le.Lifted = Abstract(FuncName(callee))
 				if se.Lifted != "" {
 					le.Lifted += "<-" + se.Lifted
